@@ -95,7 +95,7 @@ static void gen_history(Rng &r, Plan &p, int mode, bool c04) {
     if (f.call == C_WRITE) f.path = r.chance(0.7) ? "/queue/" : "";
     p.faults.push_back(f);
   } else if (mode == 6) {  // allocation failure in the daemon
-    Fault f; f.actor = "qmail-send"; f.call = C_MALLOC; f.nth = (int)r.range(1, 120); f.kind = "null"; p.faults.push_back(f);
+    Fault f; f.actor = "qmail-send"; f.call = C_MALLOC; f.nth = (int)r.range(1, 400); f.kind = "null"; p.faults.push_back(f);
   } else if (mode == 7) {  // spawner dies with a delivery outstanding
     // replace one attempt by "die"
     for (auto &op : p.ops.a) if (op.gets("op") == "script" && r.chance(0.4)) { Json &at = op.at("attempts"); at.a[0].set("die", true); break; }
@@ -601,6 +601,11 @@ static bool gen_c14(uint64_t seed, const std::string &tier, uint64_t i, Plan &p)
   if (r.chance(0.2)) { p.ops.push(Json::obj().set("op", "sleep").set("s", (long long)r.range(1, 500))); p.ops.push(Json::obj().set("op", "signal").set("to", "qmail-send").set("sig", "ALRM")); }
   // the bounce injection itself may fail: duplicates allowed, losses not
   if (i % 5 == 4) { Fault f; f.actor = "qmail-queue"; f.call = r.pick(std::vector<CallId>{C_WRITE, C_FSYNC, C_LINK, C_OPEN, C_READ}); f.nth = (int)r.range(3, 25); f.kind = "error"; f.err = EIO; p.faults.push_back(f); }
+  // a signal interrupts the daemon while it waits for the queue child that takes the bounce (wait returns EINTR once)
+  if (i % 5 == 1 && r.chance(0.6)) { Fault f; f.actor = "qmail-send"; f.call = C_WAITPID; f.nth = (int)r.range(1, 3); f.kind = "eintr"; p.faults.push_back(f); }
+  // one transient allocation failure in the daemon (it does not exit on out-of-memory: it waits and retries the very allocation;
+  // whatever it had collected so far must still be there afterwards)
+  if (i % 5 == 2 && r.chance(0.6)) { Fault f; f.actor = "qmail-send"; f.call = C_MALLOC; f.nth = (int)r.range(1, 400); f.kind = "null"; p.faults.push_back(f); }
   // ... or the daemon cannot read its own record or the original message while it composes the bounce: the bounce must wait, not go out cut short
   if (i % 5 == 3) { Fault f; f.actor = "qmail-send"; f.call = r.pick(std::vector<CallId>{C_READ, C_READ, C_OPEN}); f.path = r.pick(std::vector<std::string>{"/bounce/", "/mess/"}); f.nth = (int)r.range(1, 4); f.kind = "error"; f.err = r.pick(std::vector<int>{EIO, ENOMEM}); p.faults.push_back(f); }
   p.ops.push(Json::obj().set("op", "settle").set("max_s", (long long)(lifetime + 900000)));
